@@ -50,6 +50,11 @@ var pureStd = map[string]bool{
 	"unicode.IsUpper": true, "unicode.IsLower": true, "unicode.IsDigit": true, "unicode.IsLetter": true, "unicode.IsSpace": true,
 	"math.Abs": true, "math.Floor": true,
 	"slices.Contains": true, "slices.Equal": true, "slices.Index": true,
+	// getters of library interfaces: the answer is a function of the value asked
+	"(io/fs.DirEntry).Name": true, "(io/fs.DirEntry).IsDir": true, "(io/fs.DirEntry).Type": true,
+	"(io/fs.FileInfo).Name": true, "(io/fs.FileInfo).Size": true, "(io/fs.FileInfo).Mode": true, "(io/fs.FileInfo).IsDir": true,
+	"(io/fs.FileMode).IsDir": true, "(io/fs.FileMode).IsRegular": true, "(io/fs.FileMode).Type": true, "(io/fs.FileMode).Perm": true,
+	"(hash.Hash).Size": true, "(error).Error": true,
 }
 
 type stdModel func(e *Exec, st *State, args []Val, x *ast.CallExpr) Val
